@@ -9,7 +9,9 @@
 (* Two machines share the variables of HypIso plus `wall`:                 *)
 (*                                                                         *)
 (*  (A) the FIXED-POINT machine (InitFix / NextFix): the word machine of   *)
-(*      HypIso builds exact conjugators g; in every state the derived      *)
+(*      HypIso builds exact conjugators g (letters FixAtoms: all exact     *)
+(*      atoms, or a third of them when Rich = FALSE; origin_to cosets in   *)
+(*      dimension 2); in every state the derived                           *)
 (*      isometries g E g^-1 (Pythagorean rotations), g L g^-1 (rational    *)
 (*      loxodromics), g P g^-1 (parabolics: products of two reflections    *)
 (*      in tangent walls) and g R_v g^-1 (reflections) have exact fixed    *)
@@ -30,11 +32,17 @@
 (*      the wall held.                                                     *)
 (*                                                                         *)
 (* IsReflection is the exact acceptance predicate of from_reflection:      *)
-(* involution, trace n-1, upper sheet preserved.                           *)
+(* involution, trace n-1, upper sheet preserved.  The harness reads one    *)
+(* OBS record per state (ObsFix / ObsWall, evaluated as invariants), the   *)
+(* labelled transitions (EmitFix) and the constant tables TARGETS and COX. *)
+(* Configurations: INIT InitFix NEXT NextFix INVARIANTS FixLaws            *)
+(* FormPreserved Normalised ObsFix, or INIT InitWall NEXT NextWall         *)
+(* INVARIANTS WallLaws ObsWall; VIEW ViewFix, ACTION_CONSTRAINT EmitFix.   *)
 (***************************************************************************)
 EXTENDS HypIso
 
-CONSTANT WB        \* wall machine: bound on |entries| of the normals
+CONSTANTS WB,      \* wall machine: bound on |entries| of the normals
+          Rich      \* fixed-point machine: TRUE = all derived isometries and letters, FALSE = a part of them (quick tier, n >= 3)
 VARIABLE wall      \* wall machine: primitive normal of the hyperplane held; <<>> in machine (A)
 
 (***************************************************************************)
@@ -115,10 +123,12 @@ WallPts(u) == IF MaxAbsV(u) <= 3000
 (***************************************************************************)
 (* Derived isometries of the fixed-point machine                           *)
 (***************************************************************************)
-EllAngles == {<<3, 4, 5>>, <<5, 12, 13>>, <<0, 1, 1>>, <<0 - 1, 0, 1>>, <<0 - 3, 0 - 4, 5>>, <<4, 0 - 3, 5>>}   \* (cos, sin) = (a/c, b/c)
-LoxParams == {<<2, 1>>, <<1, 2>>, <<3, 2>>, <<11, 10>>, <<5, 1>>, <<1, 4>>}                                     \* lambda = p/q
-ParaParams == {1, 2, 0 - 1}
-ReflTargets == {Pad(<<0, 1>>), Pad(<<1, 1, 1>>), Pad(<<1, 0, 0 - 2>>), Pad(<<0, 1, 1>>)}
+EllAngles == {<<3, 4, 5>>, <<0 - 1, 0, 1>>, <<4, 0 - 3, 5>>}                                     \* (cos, sin) = (a/c, b/c)
+             \cup (IF Rich THEN {<<5, 12, 13>>, <<0, 1, 1>>, <<0 - 3, 0 - 4, 5>>} ELSE {})
+LoxParams == {<<2, 1>>, <<1, 2>>, <<11, 10>>} \cup (IF Rich THEN {<<3, 2>>, <<5, 1>>, <<1, 4>>} ELSE {})      \* lambda = p/q
+ParaParams == {1, 0 - 1} \cup (IF Rich THEN {2} ELSE {})
+ReflTargets == {Pad(<<1, 1, 1>>), Pad(<<1, 0, 0 - 2>>)}
+               \cup (IF Rich THEN {Pad(<<0, 1>>), Pad(<<0, 1, 1>>)} ELSE {})
                \cup (IF N >= 3 THEN {Pad(<<1, 1, 1, 1>>)} ELSE {})
 
 Ell(t) == RotIn(1, 2, t[1], t[2], t[3])
@@ -133,7 +143,9 @@ Attr(t) == IF t[1] > t[2] THEN Ap ELSE Am        \* eigenvalue Hi/Lo > 1
 Rep(t) == IF t[1] > t[2] THEN Am ELSE Ap
 
 Conj(c, t) == Mul(c, Mul(t, Inv(c)))
-ConjSafe(c, t) == SafeMul(t, c) /\ SafeMul(c, Mul(t, Inv(c)))
+\* the same, or <<>> when a product would not fit in 32 bits
+ConjG(c, t) == IF ~SafeMul(t, c) THEN <<>>
+               ELSE LET u == Mul(t, Inv(c)) IN IF SafeMul(c, u) THEN Mul(c, u) ELSE <<>>
 
 Probe == TestPts \cup {E1, Ap, Am}
          \cup (IF N >= 3 THEN {Pad(<<2, 0, 0, 1>>), Pad(<<1, 0, 0, 1>>), Pad(<<0, 0, 0, 1>>), Pad(<<3, 0, 0, 0 - 2>>)} ELSE {})
@@ -165,15 +177,23 @@ ASSUME TargetsSound
 (* (A) the fixed-point machine                                             *)
 (***************************************************************************)
 InitFix == Init /\ wall = <<>>
-NextFix == /\ \/ \E a \in ExactAtoms : Left(a)
-              \/ \E a \in UndetAtoms : LeftUndet(a)
+\* letters of the conjugators: all exact atoms, or (Rich = FALSE) a third of them
+FixAtoms == IF Rich THEN ExactAtoms
+            ELSE {a \in ExactAtoms :
+                    IF a.k = "refl" THEN a.v \in {Pad(<<1, 1, 1>>), Pad(<<1, 0, 0 - 2>>), Pad(<<1, 2>>), Pad(<<1, 1, 1, 1>>), Pad(<<0, 1, 0, 2>>)}
+                    ELSE IF a.k = "rot" THEN a.c = 5
+                    ELSE IF a.k = "lox" THEN a.q = 1
+                    ELSE TRUE}
+\* origin_to cosets only matter in dimension 2, where the fixed point of a rotation does not depend on the frame
+NextFix == /\ \/ \E a \in FixAtoms : Left(a)
+              \/ (N = 2 /\ \E a \in UndetAtoms : LeftUndet(a))
               \/ Invert
            /\ UNCHANGED wall
 
 \* laws of the derived isometries in the current state (evaluated whenever the products fit in 32 bits);
 \* gi[x] = d * g.x for the probe points, pb bounds their entries
-EllLaw(t, gi, pb) == LET C == Conj(g, Ell(t)) IN
-  (ConjSafe(g, Ell(t)) /\ FitsN(MaxAbs(C[1]), pb)) =>
+EllLaw(t, gi, pb) == LET C == ConjG(g, Ell(t)) IN
+  (C # <<>> /\ FitsN(MaxAbs(C[1]), pb)) =>
      /\ FixedBy(C, gi[E1])
      /\ \A x \in Probe : FixedBy(C, gi[x]) <=> (x[2] = 0 /\ x[3] = 0)             \* the fixed set is g.{x2 = x3 = 0}
      /\ NotRefl(C)
@@ -182,25 +202,25 @@ PerpLaw(gi) == \A x \in Probe : NormFits(gi[x]) =>
                   /\ MDot(gi[x], Img(g, EV(2))) = g[2] * g[2] * x[2]
                   /\ MDot(gi[x], Img(g, EV(3))) = g[2] * g[2] * x[3]
 LoxLaw(t, gi, pb) ==
-  LET C == Conj(g, LoxOf(t))
+  LET C == ConjG(g, LoxOf(t))
       ya == gi[Attr(t)]
       yr == gi[Rep(t)]
   IN
-  (ConjSafe(g, LoxOf(t)) /\ NormFits(ya) /\ NormFits(yr) /\ FitsN(MaxAbs(C[1]), Hi(t) * pb)) =>
+  (C # <<>> /\ NormFits(ya) /\ NormFits(yr) /\ FitsN(MaxAbs(C[1]), Hi(t) * pb)) =>
      /\ MNorm(ya) = 0 /\ MNorm(yr) = 0 /\ Prim(ya) # Prim(yr)
      /\ VScale(Lo(t), MatVec(C[1], ya)) = VScale(Hi(t) * C[2], ya)                \* eigenvalue Hi/Lo > 1: attracting
      /\ VScale(Hi(t), MatVec(C[1], yr)) = VScale(Lo(t) * C[2], yr)                \* eigenvalue Lo/Hi < 1: repelling
      /\ \A x \in Probe : (InBall(x) /\ Prim(x) \notin {Ap, Am}) => Prim(Img(C, gi[x])) # Prim(gi[x])
      /\ NotRefl(C)
-ParaLaw(k, gi, pb) == LET C == Conj(g, ParaOf(k)) IN
-  (ConjSafe(g, ParaOf(k)) /\ NormFits(gi[Ap]) /\ FitsN(MaxAbs(C[1]), pb)) =>
+ParaLaw(k, gi, pb) == LET C == ConjG(g, ParaOf(k)) IN
+  (C # <<>> /\ NormFits(gi[Ap]) /\ FitsN(MaxAbs(C[1]), pb)) =>
      /\ FixedBy(C, gi[Ap]) /\ MNorm(gi[Ap]) = 0
      /\ \A x \in Probe : (InBall(x) /\ Prim(x) # Ap) => Prim(Img(C, gi[x])) # Prim(gi[x])   \* the only one in the closed ball
      /\ NotRefl(C)
-ReflLaw(v) == LET C == Conj(g, Refl(v))
+ReflLaw(v) == LET C == ConjG(g, Refl(v))
                  u == Img(g, v)
              IN
-  (ConjSafe(g, Refl(v)) /\ MaxAbsV(u) <= 3000 /\ FitsV(C[1], u) /\ Fits(C[1], C[1])) =>
+  (C # <<>> /\ MaxAbsV(u) <= 3000 /\ FitsV(C[1], u) /\ Fits(C[1], C[1])) =>
      /\ C = Refl(u)                                                               \* g R_v g^-1 = R_(g v)
      /\ IsReflection(C) /\ NormalOf(C) = Prim(u) /\ MNorm(u) > 0
      /\ MatVec(C[1], u) = VScale(0 - C[2], u)
